@@ -2,7 +2,7 @@
    the coordinate of an interface on a local port is delivered to exactly that interface, from wherever it enters
    the array, along the dimension-ordered path; the Y-to-X turn ban and the loop-back ban never trigger. *)
 From FV Require Import Base AddrRange RouteMap Graph Desc Build Netlist Compile Routing Emit Hw Side
-     ModelBase BuildProofs Check CheckProofs ModelProofs IdProofs ConnProofs HwProofs WireProofs FrameProofs HwStep.
+     ModelBase BuildProofs Check XYSide CheckProofs ModelProofs IdProofs ConnProofs HwProofs WireProofs FrameProofs HwStep.
 From Coq Require Import ZifyBool.
 
 (* a mesh link sits on the output port of its compass direction, at the router it leaves *)
@@ -479,6 +479,125 @@ Section Grid.
         destruct Hdc as [(? & ? & ?)|[(? & ? & ?)|[(? & ? & ?)|[(? & ? & ?)|(? & ? & ?)]]]]; nia.
     Qed.
   End AnyPort.
+
+  (* ---------------------------------------------------------------- the bisimulation with the ideal grid *)
+  (* For ANY target coordinate (cx, cy): stepping the hardware's decision over the emitted netlist from router (i, j)
+     gives the same outcome -- delivered to whom, blocked by which ban, or lost on an open port -- as Check.ideal on a
+     grid G whose attachments are what the compiled routers carry on the ports that do not lead to a neighbour. *)
+  Section Bisim.
+    Variable G : grid.
+    Hypothesis Gm : gr_m G = mm.
+    Hypothesis Gn : gr_n G = nn.
+    Hypothesis att_ok : forall r i j k, In r (c_rts c) -> cr_name r = nm i j -> in_grid i j -> 0 <= k <= 4 ->
+      ~ (k < 4 /\ in_grid (i + fst (dir_delta k)) (j + snd (dir_delta k))) ->
+      match nth_error (cr_out r) (Z.to_nat k) with
+      | Some (Some l) => exists y, In y (c_nis c) /\ l = (nm i j, cn_name y) /\ att_at G i j k = Some (cn_name y)
+      | _ => att_at G i j k = None
+      end.
+
+    Lemma select_any r x i j cx cy : In r (c_rts c) -> cr_name r = nm i j -> in_grid i j -> emit_rt (c_desc c) ri r = Ok x ->
+      select n x (HXY (cx - ox) (cy - oy) 0) = Ok (xy_select i j cx cy 0, HXY (cx - ox) (cy - oy) 0).
+    Proof.
+      intros Hr Hn Hij Hx. pose proof (rt_coords r i j Hr Hn Hij) as Hid.
+      destruct (xy_coordinates_fit c xb yb ab ox oy (gri_xy _ c ri _ Hri Hxy)) as (_ & Hfit).
+      destruct (Hfit r Hr) as (x0 & y0 & p0 & Hid' & Fx & Fy). rewrite Hid in Hid'. inversion Hid'; subst x0 y0 p0.
+      unfold emit_rt in Hx. cbv zeta in Hx. inv_bind Hx. inversion Hx; subst x; clear Hx.
+      destruct (emit_inv _ _ _ He) as (_ & axi & rts & _ & _ & Hn0).
+      unfold select. cbn [r_id]. rewrite Hid. unfold ri_offset. rewrite Hxy. cbn [id_sub].
+      rewrite Hn0. cbn [n_xy_bits]. rewrite Hxy. unfold trunc. rewrite !Z.mod_small by lia.
+      f_equal. f_equal. unfold xy_select.
+      replace (cx - ox =? i - ox) with (cx =? i) by lia. replace (cy - oy =? j - oy) with (cy =? j) by lia.
+      replace (cy - oy <? j - oy) with (cy <? j) by lia. replace (cx - ox <? i - ox) with (cx <? i) by lia. reflexivity.
+    Qed.
+
+    (* how many more routers the walk can visit *)
+    Definition xy_mu (i j cx cy : Z) : nat :=
+      Z.to_nat ((if cx <? i then i else if i <? cx then mm - 1 - i else 0) +
+                (if i =? cx then (if cy <? j then j else if j <? cy then nn - 1 - j else 0) else nn)).
+
+    Theorem xy_bisim : forall B i j inp r cx cy,
+      in_grid i j -> In r (c_rts c) -> cr_name r = nm i j -> (xy_mu i j cx cy <= B)%nat ->
+      forall fi fh rts sigs, (B < fi)%nat -> (B < fh)%nat ->
+        classify (t_out (walk fh n nt (URt (cr_name r) inp) (HXY (cx - ox) (cy - oy) 0) rts sigs)) =
+        ideal fi G i j (Z.of_nat inp) cx cy.
+    Proof.
+      induction B as [B IH] using lt_wf_ind. intros i j inp r cx cy Hij Hr Hn Hmu fi fh rts sigs Hfi Hfh.
+      destruct fi as [|fi]; [lia|]. destruct fh as [|fh]; [lia|].
+      destruct (emitted_rt c ri n He Hnd r Hr) as (x & Hx & _).
+      pose proof (select_any r x i j cx cy Hr Hn Hij Hx) as Hsel.
+      set (out := xy_select i j cx cy 0) in *.
+      assert (Hout : 0 <= out <= 4).
+      { unfold out, xy_select. destruct ((cx =? i) && (cy =? j)); [lia|]. destruct (cx =? i); [destruct (cy <? j); lia|destruct (cx <? i); lia]. }
+      assert (Hsel' : select n x (HXY (cx - ox) (cy - oy) 0) = Ok (Z.of_nat (Z.to_nat out), HXY (cx - ox) (cy - oy) 0))
+        by (rewrite Z2Nat.id by lia; exact Hsel).
+      pose proof (hw_stop d g c ri n nt Hnt Hb Hc He Hwire r x inp _ (Z.to_nat out) _ fh rts sigs Hr Hx Hsel') as Hstop.
+      rewrite Z2Nat.id in Hstop by lia. cbn [is_xy andb] in Hstop.
+      cbn [ideal]. fold out.
+      destruct (Z.eqb_spec out (Z.of_nat inp)) as [Eio|Nio].
+      { rewrite Hstop. replace (Nat.eqb inp (Z.to_nat out)) with true by (symmetry; apply Nat.eqb_eq; lia). reflexivity. }
+      replace (Nat.eqb inp (Z.to_nat out)) with false in Hstop by (symmetry; apply Nat.eqb_neq; lia).
+      destruct (xy_masked (Z.of_nat inp) out) eqn:Em; [exact Hstop|].
+      pose proof Hij as (Hi & Hj).
+      (* does port `out` lead to a neighbouring router? *)
+      set (dx := fst (dir_delta out)). set (dy := snd (dir_delta out)).
+      assert (Htc : out < 4 -> to_coords out = Ok (dx, dy)).
+      { intros Hlt. unfold dx, dy, dir_delta, to_coords.
+        assert (Hc4 : out = 0 \/ out = 1 \/ out = 2 \/ out = 3) by lia. destruct Hc4 as [-> | [-> | [-> | ->]]]; reflexivity. }
+      destruct (Z.leb_spec 4 out) as [L4|L4].
+      - (* eject *)
+        assert (out = 4) by lia.
+        pose proof (att_ok r i j out Hr Hn Hij Hout ltac:(intros (X & _); lia)) as Hatt.
+        destruct (nth_error (cr_out r) (Z.to_nat out)) as [[l|]|] eqn:Ek.
+        + destruct Hatt as (y & Hy & -> & Hat). rewrite Hat.
+          destruct (hw_step d g c ri n nt Hnt Hb Hc He Hwire r x inp _ (Z.to_nat out) _ (cn_name y) fh rts sigs Hr Hx Hsel'
+                      ltac:(rewrite Hn; exact Ek) ltac:(lia) ltac:(rewrite Z2Nat.id by lia; cbn [is_xy andb]; exact Em))
+            as (u & Hw & [(y' & Hy' & -> & Hyn)|(r2 & i2 & Hr2 & -> & Hn2 & _)]).
+          * rewrite Hw. destruct fh; cbn [walk t_out classify]; rewrite Hyn; reflexivity.
+          * exfalso. apply (ni_rt_disjoint d g c Hb Hc y r2 Hy Hr2). congruence.
+        + rewrite Hatt. exact Hstop.
+        + rewrite Hatt. exact Hstop.
+      - (* a compass port *)
+        destruct (dir_delta out) as [dx0 dy0] eqn:Edd. cbn [fst snd] in dx, dy. subst dx dy.
+        rewrite Gm, Gn.
+        destruct ((0 <=? i + dx0) && (i + dx0 <? mm) && (0 <=? j + dy0) && (j + dy0 <? nn)) eqn:Ein.
+        + (* the neighbour is in the array: one more hop *)
+          assert (Hij' : in_grid (i + dx0) (j + dy0)) by (unfold in_grid; lia).
+          pose proof (port_to r i j out dx0 dy0 Hr Hn Hij ltac:(lia) (Htc L4) Hij') as Hport.
+          destruct (hw_step d g c ri n nt Hnt Hb Hc He Hwire r x inp _ (Z.to_nat out) _ (nm (i + dx0) (j + dy0)) fh rts sigs Hr Hx Hsel'
+                      ltac:(rewrite Hn; exact Hport) ltac:(lia) ltac:(rewrite Z2Nat.id by lia; cbn [is_xy andb]; exact Em))
+            as (u & Hw & [(y & Hy & -> & Hyn)|(r2 & i2 & Hr2 & -> & Hn2 & Hin2)]).
+          * exfalso. destruct (rt_at (i + dx0) (j + dy0) Hij') as (r3 & Hr3 & Hn3 & _).
+            apply (ni_rt_disjoint d g c Hb Hc y r3 Hy Hr3). congruence.
+          * rewrite Hw. rewrite Hn in Hin2.
+            pose proof (arrives_on r2 i j out dx0 dy0 i2 Hij Hij' ltac:(lia) (Htc L4) Hr2 Hn2 Hin2) as Hi2. subst i2.
+            assert (Hrev : Z.of_nat (Z.to_nat (opp out)) = rev_dir out).
+            { unfold opp, rev_dir. assert (Hc4 : out = 0 \/ out = 1 \/ out = 2 \/ out = 3) by lia.
+              destruct Hc4 as [-> | [-> | [-> | ->]]]; reflexivity. }
+            rewrite <- Hrev.
+            assert (Hdec : (xy_mu (i + dx0) (j + dy0) cx cy < xy_mu i j cx cy)%nat).
+            { unfold xy_mu. unfold out, xy_select in *. unfold dir_delta in Edd.
+              destruct ((cx =? i) && (cy =? j)) eqn:E0; [lia|].
+              destruct (Z.eqb_spec cx i) as [Ex|Nx].
+              - destruct (Z.ltb_spec cy j); cbn in Edd; inversion Edd; subst dx0 dy0;
+                  repeat match goal with |- context [?a <? ?b] => destruct (Z.ltb_spec a b) end;
+                  repeat match goal with |- context [?a =? ?b] => destruct (Z.eqb_spec a b) end; lia.
+              - destruct (Z.ltb_spec cx i); cbn in Edd; inversion Edd; subst dx0 dy0;
+                  repeat match goal with |- context [?a <? ?b] => destruct (Z.ltb_spec a b) end;
+                  repeat match goal with |- context [?a =? ?b] => destruct (Z.eqb_spec a b) end; lia. }
+            apply (IH (B - 1)%nat ltac:(lia) (i + dx0) (j + dy0) (Z.to_nat (opp out)) r2 cx cy Hij' Hr2 Hn2 ltac:(lia)); lia.
+        + (* the port leads out of the array: an attached interface, or nothing *)
+          pose proof (att_ok r i j out Hr Hn Hij Hout ltac:(rewrite Edd; cbn [fst snd]; unfold in_grid; intros (_ & X); lia)) as Hatt.
+          destruct (nth_error (cr_out r) (Z.to_nat out)) as [[l|]|] eqn:Ek.
+          * destruct Hatt as (y & Hy & -> & Hat). rewrite Hat.
+            destruct (hw_step d g c ri n nt Hnt Hb Hc He Hwire r x inp _ (Z.to_nat out) _ (cn_name y) fh rts sigs Hr Hx Hsel'
+                        ltac:(rewrite Hn; exact Ek) ltac:(lia) ltac:(rewrite Z2Nat.id by lia; cbn [is_xy andb]; exact Em))
+              as (u & Hw & [(y' & Hy' & -> & Hyn)|(r2 & i2 & Hr2 & -> & Hn2 & _)]).
+            -- rewrite Hw. destruct fh; cbn [walk t_out classify]; rewrite Hyn; reflexivity.
+            -- exfalso. apply (ni_rt_disjoint d g c Hb Hc y r2 Hy Hr2). congruence.
+          * rewrite Hatt. exact Hstop.
+          * rewrite Hatt. exact Hstop.
+    Qed.
+  End Bisim.
 End Grid.
 
 (* the header an interface builds from the identity of t is the coordinate header used above *)
@@ -642,3 +761,92 @@ Section Ports.
     intros r i Hr Hn Hin. rewrite (port_in s0 a b ks r i Hls Hr Hn Hin). exact Hinp.
   Qed.
 End Ports.
+
+(* ------------------------------------------------------------------ the bisimulation, from injection to outcome *)
+Section BisimSend.
+  Variables (d : desc) (g : graph) (c : compiled) (rd : rt_desc) (mm nn : Z).
+  Hypothesis Hb : build d = Ok g.
+  Hypothesis Hc : compile d g = Ok c.
+  Hypothesis Halgo : d_algo d = XY.
+  Hypothesis Hrts : d_rts d = [rd].
+  Hypothesis Harr : rt_array rd = Some [mm; nn].
+  Hypothesis Htree : rt_tree rd = None.
+  Hypothesis Hauto : rt_auto rd = true.
+  Variables (sp : oracle) (ri : rinfo) (n : netlist) (nt : net).
+  Hypothesis Hnt : net_ok d nt.
+  Hypothesis Hri : gen_routing_info sp c = Ok ri.
+  Hypothesis He : emit c ri = Ok n.
+  Hypothesis Hwire : forall l, In l (n_links n) -> fst l = net_type nt -> signal_ok n l.
+  Variables (xb yb ab ox oy : Z).
+  Hypothesis Hxy : ri_xy ri = Some (xb, (yb, (ab, (ox, oy)))).
+  Variable G : grid.
+  Hypothesis Gm : gr_m G = mm.
+  Hypothesis Gn : gr_n G = nn.
+  Hypothesis Hatt : att_okb c mm nn G = true.
+  Let nm (i j : Z) : string := full_name (rt_name rd) [i; j].
+
+  (* the decidable condition gives the hypothesis of xy_bisim *)
+  Lemma att_okb_sound : forall r i j k, In r (c_rts c) -> cr_name r = nm i j -> in_grid mm nn i j -> 0 <= k <= 4 ->
+    ~ (k < 4 /\ in_grid mm nn (i + fst (dir_delta k)) (j + snd (dir_delta k))) ->
+    match nth_error (cr_out r) (Z.to_nat k) with
+    | Some (Some l) => exists y, In y (c_nis c) /\ l = (nm i j, cn_name y) /\ att_at G i j k = Some (cn_name y)
+    | _ => att_at G i j k = None
+    end.
+  Proof.
+    intros r i j k Hr Hn Hij Hk Hnb. pose proof Hatt as Ha. unfold att_okb in Ha. rewrite forallb_forall in Ha. specialize (Ha r Hr).
+    rewrite (rt_coords d g c rd mm nn Hb Hc Halgo Hrts Harr Htree r i j Hr Hn Hij) in Ha.
+    rewrite forallb_forall in Ha.
+    assert (Hin : In k [0; 1; 2; 3; 4]) by (cbn; lia). specialize (Ha k Hin).
+    destruct (dir_delta k) as [dx dy] eqn:Edd. cbn [fst snd] in Hnb.
+    destruct ((k <? 4) && ((0 <=? i + dx) && (i + dx <? mm) && (0 <=? j + dy) && (j + dy <? nn))) eqn:Enb.
+    - exfalso. apply Hnb. unfold in_grid. lia.
+    - destruct (nth_error (cr_out r) (Z.to_nat k)) as [[l|]|].
+      + apply existsb_exists in Ha. destruct Ha as (y & Hy & Hq). apply andb_true_iff in Hq. destruct Hq as (Hq1 & Hq2).
+        apply pair_eqb_eq in Hq1. destruct (att_at G i j k) as [t0|]; [|discriminate]. apply str_eqb_eq in Hq2. subst t0.
+        exists y. rewrite Hq1, Hn. auto.
+      + destruct (att_at G i j k); [discriminate|reflexivity].
+      + destruct (att_at G i j k); [discriminate|reflexivity].
+  Qed.
+
+  (* C04, complete: for an interface on any port and ANY target coordinate, the outcome of the hardware walk over the
+     emitted netlist is the outcome on the ideal grid: delivered to the same interface, blocked by the same ban, or lost
+     on an open port in both *)
+  Theorem xy_bisim_send s0 a b ks cx cy :
+    In s0 (c_nis c) -> on_port g rd mm nn nt s0 a b ks ->
+    classify (t_out (send n nt (emit_ni d (ri_offset ri) s0) (HXY (cx - ox) (cy - oy) 0))) =
+    ideal (Z.to_nat (mm + nn + 4)) G a b ks cx cy.
+  Proof.
+    intros Hs0 Hls. pose proof Hls as (Hab & Hks & _ & _ & Hatt0).
+    destruct (inject_reader d g c ri n nt Hnt Hb Hc He Hwire s0 (nm a b) Hs0 ltac:(rewrite Hatt0; reflexivity)) as (Hout & u & Hrdr & Hcases).
+    unfold send. rewrite Hout. unfold Hw.follow. rewrite Hrdr.
+    destruct Hcases as [(y & Hy & -> & Hyn)|(r & i & Hr & -> & Hn & Hin)].
+    - exfalso. destruct (rt_at d g c rd mm nn Hb Hc Halgo Hrts Harr Htree a b Hab) as (r3 & Hr3 & Hn3 & _).
+      apply (ni_rt_disjoint d g c Hb Hc y r3 Hy Hr3). unfold nm in *. congruence.
+    - rewrite (port_in d g c rd mm nn Hb Hc Hauto nt s0 a b ks r i Hls Hr Hn Hin).
+      pose proof Hab as (Ha1 & Hb1).
+      assert (Hmu : (xy_mu mm nn a b cx cy <= Z.to_nat (mm + nn - 1))%nat).
+      { unfold xy_mu. repeat match goal with |- context [?p <? ?q] => destruct (Z.ltb_spec p q) end;
+          repeat match goal with |- context [?p =? ?q] => destruct (Z.eqb_spec p q) end; lia. }
+      rewrite <- (Z2Nat.id ks) at 2 by lia.
+      apply (xy_bisim d g c rd mm nn Hb Hc Halgo Hrts Harr Htree Hauto sp ri n nt Hnt Hri He Hwire xb yb ab ox oy Hxy G Gm Gn att_okb_sound
+               (Z.to_nat (mm + nn - 1)) a b (Z.to_nat ks) r cx cy Hab Hr Hn Hmu); [lia|].
+      destruct (emit_inv _ _ _ He) as (_ & axi & rts & _ & Hrts' & Hn0). rewrite Hn0. cbn [n_rts].
+      rewrite (mapM_length _ _ _ Hrts'), (router_count d g c rd mm nn Hb Hc Hrts Harr Htree). nia.
+  Qed.
+End BisimSend.
+
+(* the decidable form of on_port *)
+Lemma on_portb_ok g rd mm nn nt x i j k : on_portb g rd mm nn x i j k = true -> on_port g rd mm nn nt x i j k.
+Proof.
+  unfold on_portb, on_port. cbv zeta. intros H.
+  repeat (apply andb_true_iff in H; let X := fresh "B" in destruct H as (H & X)).
+  apply pair_eqb_eq in B, B0.
+  apply existsb_exists in B1. destruct B1 as (e2 & He2 & Q2). apply existsb_exists in B2. destruct B2 as (e1 & He1 & Q1).
+  repeat (apply andb_true_iff in Q1; let X := fresh "C" in destruct Q1 as (Q1 & X)).
+  repeat (apply andb_true_iff in Q2; let X := fresh "D" in destruct Q2 as (Q2 & X)).
+  apply str_eqb_eq in C0, C1, D0, D1.
+  destruct (e_src_dir e1) as [q1|] eqn:E1; [|discriminate]. destruct (e_dst_dir e2) as [q2|] eqn:E2; [|discriminate].
+  assert (q1 = k) by lia. assert (q2 = k) by lia. subst q1 q2.
+  split; [unfold in_grid; lia|]. split; [lia|]. split; [exists e1; auto 10|]. split; [exists e2; auto 10|].
+  unfold attach, rev_link. destruct nt; rewrite ?B, ?B0; reflexivity.
+Qed.
